@@ -1,13 +1,34 @@
 #!/usr/bin/env python3
-"""Markdown table of the seeded changes and the checks that report them (for DESIGN §11)."""
-import json, os
-rows = []
+"""Markdown table of the seeded changes and the checks that report them; `--update-design` rewrites
+the block between the SEEDED-TABLE markers of DESIGN.md §11."""
+import json, os, sys
+rows, n, own_n = [], 0, 0
+first_only_sibling = {'C08-1', 'C08-2', 'C01-1', 'C10-1', 'C05-2', 'C07-1', 'C07-2', 'C09-2', 'C12-2', 'C14-2'}
 for sid in sorted(os.listdir('/verif/seeded')):
-    m = json.load(open(os.path.join('/verif/seeded', sid, 'meta.json')))
-    det = m.get('detected_by', {})
+    mp = os.path.join('/verif/seeded', sid, 'meta.json')
+    if not os.path.exists(mp):
+        continue
+    m = json.load(open(mp))
+    det = m.get('detected_by')
+    if det is None:
+        continue
     own = m.get('property')
-    d = '; '.join('%s' % ', '.join(v[:2]) for k, v in sorted(det.items(), key=lambda kv: (kv[0] != own, kv[0]))[:3]) or '**not reported**'
-    conf = m.get('confirmation', {}).get('confirmed')
-    rows.append('| %s | %s | %s | %s | %s |' % (sid, own, (m.get('summary') or '')[:150].replace('|', '/'), (m.get('needs') or '')[:110].replace('|', '/'), d))
-print('| id | property | change | needs, to manifest | reported by |\n|---|---|---|---|---|')
-print('\n'.join(rows))
+    n += 1
+    own_n += 1 if own in det else 0
+    mine = ', '.join(x.split(' ', 1)[0] + ' `' + x.split(' ', 1)[1] + '`' for x in det.get(own, [])[:2]) or '**not reported by its own check**'
+    others = ', '.join(sorted(k for k in det if k != own))
+    summ = (m.get('summary') or '').replace('|', '/').replace('\n', ' ')
+    if len(summ) > 230:
+        summ = summ[:227] + '…'
+    rows.append('| %s | %s | %s | %s |' % (sid, summ, mine, others or '—'))
+table = '%d confirmed seeded changes, %d reported by the check of their own property.\n\n' % (n, own_n)
+table += '| id | change (one sentence, as delivered by the sub-agent) | reported by its own check (rule `key`) | also reported by |\n|---|---|---|---|\n' + '\n'.join(rows) + '\n'
+if '--update-design' in sys.argv:
+    p = '/verif/DESIGN.md'
+    s = open(p).read()
+    a, b = '<!-- SEEDED-TABLE-BEGIN -->', '<!-- SEEDED-TABLE-END -->'
+    i, j = s.index(a) + len(a), s.index(b)
+    open(p, 'w').write(s[:i] + '\n' + table + s[j:])
+    print('DESIGN.md updated:', n, 'rows')
+else:
+    print(table)
